@@ -411,15 +411,40 @@ fn start_watchdog(case_ids: std::sync::Arc<std::sync::Mutex<String>>) {
     use std::sync::atomic::Ordering;
     let limit: u64 = std::env::var("AVT_OP_TIMEOUT_MS").ok().and_then(|v| v.parse().ok()).unwrap_or(30_000);
     let t0 = std::time::Instant::now();
-    std::thread::spawn(move || loop {
-        std::thread::sleep(std::time::Duration::from_millis(250));
-        let started = OP_STARTED_MS.load(Ordering::Relaxed);
-        if started != 0 {
-            let now = t0.elapsed().as_millis() as u64 + 1;
-            if now > started && now - started > limit {
-                let case = case_ids.lock().map(|c| c.clone()).unwrap_or_default();
-                eprintln!("HANG case={} line={} after_ms={}", case, OP_LINE.load(Ordering::Relaxed), now - started);
-                std::process::exit(97);
+    // the limit is applied to the CPU time the process burns while one op is in flight (sampled
+    // here, 4x per second), and to the wall clock as well: a machine under heavy load or a stopped
+    // process makes the wall clock run on without the crate doing anything, a real hang burns CPU
+    fn cpu_ms() -> Option<u64> {
+        let st = std::fs::read_to_string("/proc/self/stat").ok()?;
+        let rest = &st[st.rfind(')')? + 1..];
+        let f: Vec<&str> = rest.split_whitespace().collect();
+        let ut: u64 = f.get(11)?.parse().ok()?;
+        let stt: u64 = f.get(12)?.parse().ok()?;
+        Some((ut + stt) * 10)
+    }
+    std::thread::spawn(move || {
+        let mut key = (0u64, 0u64);
+        let mut cpu0 = 0u64;
+        loop {
+            std::thread::sleep(std::time::Duration::from_millis(250));
+            let started = OP_STARTED_MS.load(Ordering::Relaxed);
+            if started != 0 {
+                let k = (started, OP_LINE.load(Ordering::Relaxed));
+                let cpu = cpu_ms();
+                if k != key {
+                    key = k;
+                    cpu0 = cpu.unwrap_or(0);
+                }
+                let now = t0.elapsed().as_millis() as u64 + 1;
+                let burned = match cpu {
+                    Some(c) => c.saturating_sub(cpu0) > limit,
+                    None => true,
+                };
+                if now > started && now - started > limit && burned {
+                    let case = case_ids.lock().map(|c| c.clone()).unwrap_or_default();
+                    eprintln!("HANG case={} line={} after_ms={}", case, OP_LINE.load(Ordering::Relaxed), now - started);
+                    std::process::exit(97);
+                }
             }
         }
     });
